@@ -1,7 +1,8 @@
 """C13 - shift / stretch / concatenate / repeat / adjust move every event consistently (DESIGN.md §4 C13)."""
 import ast
 
-from sa import own, cov, astutil as U
+from sa import own, cov, roles, astutil as U
+from sa.roles import Canon
 from sa.loader import norm_text, dotted
 from sa.selftest import Mutant
 
@@ -126,7 +127,8 @@ def adjust(ctx, tpaths):
            '%s receives time_func(.%s)' % (cov.path_text(p), p[-1]) if ok else
            'adjust_notesequence_times: time-bearing field %s (from music.proto) is never mapped through time_func: events of this kind keep their old time' % cov.path_text(p),
            construct='adjust: %s = time_func(.)' % cov.path_text(p))
-  # guards (S5)
+  # guards (S5): read on a copy whose locals carry their role names
+  fi = adjust_canon(fi)
   loop = None
   for n in ast.walk(fi.node):
     if isinstance(n, ast.For) and norm_text(n.iter).endswith('.notes'):
@@ -176,8 +178,19 @@ def adjust(ctx, tpaths):
          'rectify_beats no longer applies its interpolation through adjust_notesequence_times', construct='rectify: adjust(sequence, time_func)')
 
 
+def adjust_canon(fi):
+  def tf(attr):
+    return lambda fn: roles.assigned_where(fn, lambda v, st: isinstance(v, ast.Call) and isinstance(v.func, ast.Name) and v.func.id == 'time_func' and
+                                           v.args and isinstance(v.args[0], ast.Attribute) and v.args[0].attr == attr)
+  return Canon(fi, roles.discover(fi, {'start_time': tf('start_time'), 'end_time': tf('end_time')}))
+
+
 def concat(ctx):
   fi = ctx.func(SL + ':concatenate_sequences')
+  fi = Canon(fi, roles.discover(fi, {
+      'i': lambda fn: [n.target.id for n in fn.body if isinstance(n, ast.For) and isinstance(n.target, ast.Name)],
+      'sequence': lambda fn: roles.assigned_where(fn, lambda v, st: isinstance(v, ast.Subscript) and norm_text(v.value) == 'sequences'),
+  }))
   fn = fi.node
   calls = [c for c in U.calls_in(fn) if dotted(c.func) == 'shift_sequence_times']
   ctx.require(len(calls) >= 1, 'concatenate_sequences no longer calls shift_sequence_times')
@@ -248,6 +261,10 @@ def concat(ctx):
   ctx.ob('CONCAT/redundancy', fi, last, ok, 'result goes through remove_redundant_data' if ok else 'result is not de-duplicated')
   # comparator in remove_redundant_data
   rr = ctx.func(SL + ':remove_redundant_data')
+  rr = Canon(rr, roles.discover(rr, {
+      'events': lambda fn: [n.target.id for n in ast.walk(fn) if isinstance(n, ast.For) and isinstance(n.iter, ast.List) and isinstance(n.target, ast.Name)],
+      'i': lambda fn: [n.target.id for n in ast.walk(fn) if isinstance(n, ast.For) and isinstance(n.iter, ast.Call) and dotted(n.iter.func) == 'range' and isinstance(n.target, ast.Name)],
+  }))
   rn = rr.node
   loop = next((n for n in ast.walk(rn) if isinstance(n, ast.For) and isinstance(n.iter, ast.Call) and dotted(n.iter.func) == 'range'), None)
   ctx.require(loop is not None, 'remove_redundant_data: index loop not found')
@@ -291,6 +308,11 @@ def concat(ctx):
 
 def repeat(ctx):
   fi = ctx.func(SL + ':repeat_sequence_to_duration')
+  fi = Canon(fi, roles.discover(fi, {
+      'num_repeats': lambda fn: roles.assigned_where(fn, lambda v, st: any(isinstance(b, ast.BinOp) and isinstance(b.op, (ast.Div, ast.FloorDiv)) and
+                                                                          norm_text(b.left) == 'duration' for b in ast.walk(v))),
+      'repeated_ns': lambda fn: roles.assigned_where(fn, lambda v, st: isinstance(v, ast.Call) and dotted(v.func) == 'concatenate_sequences'),
+  }))
   fn = fi.node
   n_def = None
   for st in U.walk_stmts(fn):
@@ -354,3 +376,6 @@ MUTANTS = [
     Mutant('stretch: chain built from a list', F, '  events = itertools.chain(\n      stretched_sequence.time_signatures,', '  events = itertools.chain(\n      list(stretched_sequence.time_signatures),', expect='silent'),
     Mutant('shift: notes shifted after events', F, '  shifted.total_time += shift_seconds\n\n  return shifted', '  shifted.total_time += shift_seconds\n  if False:\n    pass\n\n  return shifted', expect='silent'),
 ]
+
+RENAME_FUNCS = [(F, n) for n in ('shift_sequence_times', 'stretch_note_sequence', 'adjust_notesequence_times', 'rectify_beats',
+                                 'concatenate_sequences', 'remove_redundant_data', 'repeat_sequence_to_duration')]
